@@ -39,12 +39,18 @@ func (P *Prog) readSet(name string, f *ssa.Function, c *Contract) map[string]Sor
 		for _, in := range b.Instrs {
 			switch in := in.(type) {
 			case *ssa.FieldAddr:
+				if rootIsLocalAlloc(in.X) {
+					continue
+				}
 				si := P.structOf(in.X.Type())
 				fi := si.Fields[in.Field]
 				if !isStruct(fi.Ty) && !isArray(fi.Ty) {
 					out[fieldHeap(si, in.Field)] = fi.Sort
 				}
 			case *ssa.IndexAddr:
+				if rootIsLocalAlloc(in.X) {
+					continue
+				}
 				var et types.Type
 				switch t := in.X.Type().Underlying().(type) {
 				case *types.Slice:
@@ -62,7 +68,10 @@ func (P *Prog) readSet(name string, f *ssa.Function, c *Contract) map[string]Sor
 				}
 			case *ssa.UnOp:
 				// load of a whole struct through a pointer reads all its fields
-				if in.Op.String() == "*" {
+				if _, isG := in.X.(*ssa.Global); isG {
+					continue
+				}
+				if in.Op.String() == "*" && !rootIsLocalAlloc(in.X) {
 					if pt, ok := in.X.Type().Underlying().(*types.Pointer); ok {
 						if isStruct(pt.Elem()) {
 							x.structHeaps(pt.Elem(), out)
@@ -87,6 +96,13 @@ func (P *Prog) readSet(name string, f *ssa.Function, c *Contract) map[string]Sor
 				if g, ok := in.Common().Value.(*ssa.Function); ok {
 					gn := qualName(g)
 					gc := P.Specs.Contracts[gn]
+					if gc != nil && (gc.Inline || gc.ByExec) && len(gc.Reads) == 0 {
+						// defined by its contract: its reads are those of the definition
+						// (byte predicates: none)
+						if gc.ByExec {
+							continue
+						}
+					}
 					for h, s := range P.readSet(gn, g, gc) {
 						out[h] = s
 					}
@@ -95,4 +111,21 @@ func (P *Prog) readSet(name string, f *ssa.Function, c *Contract) map[string]Sor
 		}
 	}
 	return out
+}
+
+// rootIsLocalAlloc: the address is derived (through field/index addressing)
+// from an allocation of the function itself.
+func rootIsLocalAlloc(v ssa.Value) bool {
+	for {
+		switch a := v.(type) {
+		case *ssa.Alloc:
+			return true
+		case *ssa.FieldAddr:
+			v = a.X
+		case *ssa.IndexAddr:
+			v = a.X
+		default:
+			return false
+		}
+	}
 }
